@@ -223,6 +223,10 @@ def families(macro):
                     at.insert(0, ('scope', sc))
                 out.append(Fx(macro, at, ['i32'], None, 'i32', 'S'))
         out.append(Fx(macro, A(('scope', '"thread"')), ['i32'], '&self', 'i32', 'S'))
+        # an exclusive receiver is a receiver like any other: the scope attribute (or its default) still decides
+        out.append(Fx(macro, A(('scope', '"global"'), ('limit', '3')), ['i32'], '&mut self', 'i32', 'S'))
+        out.append(Fx(macro, [], ['i32'], '&mut self', 'i32', 'S'))
+        out.append(Fx(macro, A(('scope', '"thread"')), [], '&mut self', 'i32', 'S'))
         out.append(Fx(macro, A(('scope', '"thread"'), ('max_memory', '"2KB"')), ['i32'], None, 'String', 'S'))
         out.append(Fx(macro, A(('scope', '"thread"'), ('ttl', '1')), ['i32'], None, 'Result<i32, String>', 'S'))
         # thread scope combined with every other attribute kind (nothing may silently turn it global)
@@ -242,6 +246,9 @@ def families(macro):
     out.append(Fx(macro, A(('tags', '["tag:c", "tag:d"]'), ('events', '["evt:c", "evt:d"]'), ('dependencies', '["dep:c", "dep:d"]')), ['i32', 'String'], None, 'String', 'G'))
     out.append(Fx(macro, A(('dependencies', '["dep:e"]'), ('tags', '["tag:e"]'), ('limit', '3'), ('policy', '"lfu"')), ['i32'], '&self', 'i32', 'G'))
     out.append(Fx(macro, A(('tags', '[]')), ['i32'], None, 'i32', 'G'))
+    # names are registered exactly as written: upper case, and escapes in the literal decoded
+    out.append(Fx(macro, A(('tags', '["UserData", "MiXed:Case"]'), ('events', '["EVT:Upper"]')), ['i32'], None, 'i32', 'G'))
+    out.append(Fx(macro, A(('dependencies', '["Dep:Upper"]'), ('tags', '["tenant\\\\users", "say\\"hi"]')), ['i32'], None, 'i32', 'G'))
     # R: result spellings
     for sp, _ in RESULT_SPELLINGS:
         out.append(Fx(macro, [], ['i32'], None, sp, 'R'))
